@@ -45,6 +45,20 @@ enum SimPointKind {
 };
 // called by the plain-access shims: a point iff `pc` lies in code under test
 void sim_plain_point(void* pc, const void* addr, int is_write);
+void sim_plain_point_n(void* pc, const void* addr, int is_write, int size);
+
+// ---- order-aware data-race detector (race.cpp; property C10) ----
+void sim_race_enable(int on);
+void sim_race_atomic(const void* addr, int op /*0 load 1 store 2 rmw*/, int memory_order);
+void sim_race_fence(int memory_order);
+// the harness declares an access to one of its payload objects (checked like a plain access)
+void sim_race_access(const void* addr, size_t size, int is_write, const char* label);
+// harness-level synchronisation that really orders things (SimLatch)
+void sim_race_release(const void* obj);
+void sim_race_acquire(const void* obj);
+void sim_race_ignore(int reads_delta, int writes_delta);
+void sim_race_new_memory(const void* addr, size_t size);
+void sim_race_stats(uint64_t* plain, uint64_t* atomic, uint64_t* sync, uint64_t* declared);
 
 // ---- fault kinds (bit positions in masks, indices in counters) ----
 enum SimFaultKind {
